@@ -99,7 +99,11 @@ def extracted():
   if rw.n['fromstring'] < 3 or rw.n['join_fmt'] < 2:
     raise AssertionError('mjcf.py: too few text<->number conversions recognised: %s' % rw.n)
   from typing import Tuple
-  ns = {'np': np, 'math': math, 'ElementTree': ElementTree, 'Tuple': Tuple, '_FS': _FS, '_JN': _JN, '_SL': _SL}
+  # the rewritten functions run in a copy of the real module's namespace (module-level helpers and constants they may refer to resolve as in production);
+  # only the three functions themselves and the three conversion shims are replaced
+  from brax.io import mjcf as _real
+  ns = dict(_real.__dict__)
+  ns.update({'np': np, 'math': math, 'ElementTree': ElementTree, 'Tuple': Tuple, '_FS': _FS, '_JN': _JN, '_SL': _SL})
   exec(compile(mod, path + ' [rewritten]', 'exec'), ns)
   return ns
 
